@@ -124,6 +124,8 @@ def gen_spec(rng, n=None, gids=None, match=True):
     spec = {'images': [(o, k, g) for o, k, g in zip(origins, kinds, gids)], 'errs': errs, 'ref': ref,
             'expand': rng.random() < 0.5, 'enforce': rng.random() < 0.5, 'minobj': minobj, 'fitgeom': fitgeom,
             'match': True}
+    if rng.random() < 0.7:
+        spec['labels'] = alignsim.draw_labels(rng, gids)
     return spec
 
 
@@ -375,6 +377,9 @@ def run(ctx):
                 spec = {'images': list(zip(origins, kinds, gids)), 'errs': errs,
                         'ref': ref, 'expand': expand, 'enforce': enforce, 'minobj': None, 'fitgeom': 'rscale',
                         'match': True}
+                if any(g is not None for g in gids):
+                    # falsy but legitimate labels: group 1 -> 0, group 2 -> '' (pool indices 0, 1)
+                    spec['labels'] = {'1': 0, '2': 1} if expand else {'1': 1, '2': 7}
                 do_scenario(ctx, scene, scene_seed, spec, lines, pending, 'corpus')
     # exactly at the threshold: nmatches == minobj must succeed, nmatches == minobj - 1 must fail
     centre = alignsim.ref_sources(scene, 'centre')
